@@ -176,6 +176,100 @@ def _replay_rlencode(inputs):
     return out
 
 
+def _index_builder(fnname, keycol):
+    def run(inputs):
+        import cooler.create._create as C
+        a = {k: conv(v) for k, v in inputs.items()}
+        A = np.asarray(a["grp"][keycol])
+        names = [k for k in a if k != "grp"]
+        nvals, total = int(a[names[0]]), int(a[names[1]])
+        out = {"inputs_used": {keycol: A.tolist(), names[0]: nvals, names[1]: total}}
+        pre = (nvals >= 0 and total == len(A) and all(A[i] <= A[i + 1] for i in range(len(A) - 1))
+               and all(0 <= x < nvals for x in A))
+        out["precondition_holds"] = bool(pre)
+        if not pre:
+            out.update(violations=[], violates_contract=False, note="model violates the precondition (loop-state model)")
+            return out
+        O = getattr(C, fnname)({keycol: A}, nvals, total)
+        exp = [int(np.searchsorted(A, i, "left")) for i in range(nvals + 1)]
+        viol = [] if list(map(int, O)) == exp else [f"{fnname} returned {list(map(int, O))}, the run-length index is {exp}"]
+        out.update(returned=repr(list(map(int, O))), raised=None, violations=viol, violates_contract=bool(viol))
+        return out
+    return run
+
+
+CUSTOM["cooler.create._create:index_pixels"] = _index_builder("index_pixels", "bin1_id")
+CUSTOM["cooler.create._create:index_bins"] = _index_builder("index_bins", "chrom")
+
+
+@custom("cooler._reduce:merge_breakpoints")
+def _replay_merge_breakpoints(inputs):
+    from cooler._reduce import merge_breakpoints
+    a = {k: conv(v) for k, v in inputs.items()}
+    idx = [np.asarray(x) for x in a["indexes"]]
+    buf = int(a["bufsize"])
+    out = {"inputs_used": {"indexes": [x.tolist() for x in idx], "bufsize": buf}}
+    n = len(idx[0])
+    pre = n >= 2 and buf >= 1 and all(len(x) == n and x[0] == 0 and all(x[i] <= x[i + 1] for i in range(n - 1)) for x in idx)
+    out["precondition_holds"] = bool(pre)
+    if not pre:
+        out.update(violations=[], violates_contract=False, note="model violates the precondition (loop-state model)")
+        return out
+    try:
+        P, Cm = merge_breakpoints(idx, buf)
+    except Exception as e:
+        out.update(raised=f"{type(e).__name__}: {e}", violations=[f"raised {type(e).__name__}"], violates_contract=True)
+        return out
+    ci = sum(idx)
+    viol = []
+    P = list(map(int, P))
+    if P[0] != 0 or any(P[i] >= P[i + 1] for i in range(len(P) - 1)):
+        viol.append(f"partition {P} is not strictly increasing from 0")
+    if ci[P[-1]] != ci[-1]:
+        viol.append(f"last boundary {P[-1]} does not exhaust the inputs: combined_index there {ci[P[-1]]} != total {ci[-1]}")
+    if [float(x) for x in Cm] != [float(ci[p]) for p in P]:
+        viol.append("cum_nrecords does not match combined_index at the boundaries")
+    out.update(returned=repr((P, list(map(float, Cm)))), raised=None, violations=viol, violates_contract=bool(viol))
+    return out
+
+
+@custom("cooler._reduce:_greedy_prune_partition")
+def _replay_gpp(inputs):
+    from cooler._reduce import _greedy_prune_partition
+    a = {k: conv(v) for k, v in inputs.items()}
+    e = np.asarray(a["edges"]); ml = int(a["maxlen"])
+    out = {"inputs_used": {"edges": e.tolist(), "maxlen": ml}}
+    pre = len(e) >= 2 and e[0] == 0 and ml >= 1 and all(e[i] <= e[i + 1] for i in range(len(e) - 1))
+    out["precondition_holds"] = bool(pre)
+    if not pre:
+        out.update(violations=[], violates_contract=False)
+        return out
+    r = list(map(int, _greedy_prune_partition(e, ml)))
+    viol = []
+    if any(x not in set(e.tolist()) for x in r):
+        viol.append(f"result {r} contains values that are not edges {e.tolist()}")
+    if r[0] != 0 or r[-1] != e[-1] or any(r[i] > r[i + 1] for i in range(len(r) - 1)):
+        viol.append(f"result {r} does not run from 0 to {e[-1]} in order")
+    out.update(returned=repr(r), raised=None, violations=viol, violates_contract=bool(viol))
+    return out
+
+
+@custom("cooler.util:partition")
+def _replay_partition(inputs):
+    from cooler.util import partition
+    a = {k: conv(v) for k, v in inputs.items()}
+    st, sp, step = int(a["start"]), int(a["stop"]), int(a["step"])
+    out = {"inputs_used": a}
+    if step < 1:
+        out.update(violations=[], violates_contract=False)
+        return out
+    r = [(int(x), int(y)) for x, y in partition(st, sp, step)]
+    exp = [(i, min(i + step, sp)) for i in range(st, sp, step)]
+    viol = [] if r == exp else [f"partition{(st, sp, step)} = {r}, expected {exp}"]
+    out.update(returned=repr(r), raised=None, violations=viol, violates_contract=bool(viol))
+    return out
+
+
 def replay(target, inputs, ghost=None):
     if target in CUSTOM:
         import inspect
